@@ -48,7 +48,28 @@ def run(ctx):
             keys.append(k)
         else:
             ctx.fail("keygen from a 32-byte Seed object failed", [c.line], a[:100], "ok")
-    sign_cases = []
+    # signing / key generation with auxiliary buffers the caller did not clear (first byte 0, arbitrary bytes behind it), all
+    # hashes, top trees of height 5, leaves at the very end of the top tree included: released signatures must verify
+    aux_sign = []
+    for H in ALL_H:
+        n = HASHES[H]
+        for ps in ([(2, 5)], [(3, 5), (2, 1)]):
+            seed = rng.bytes_(n)
+            for L in (4 + n + (n << 1) + (n << 3) + 7, 4 + n + (n << 1) + (n << 3) + (n << 5), 2500):
+                dirty = b"\0" + rng.bytes_(L - 1)
+                r = ctx.both([Case(keygen_line(H, ps, seed, dirty), "keygen/dirty-aux")], proj)[0][1]
+                if not r.startswith("ok"):
+                    ctx.fail("keygen with an uncleared aux buffer failed", [keygen_line(H, ps, seed, dirty)[:300]], r[:100], "ok")
+                    continue
+                f = fields(r)
+                k = Key(H, ps, seed, unhx(f["sk"]), unhx(f["vk"]))
+                k.keygen_request = keygen_line(H, ps, seed, dirty)[:400]
+                filled = unhx(f["aux"])
+                for cnt in sorted({0, k.lifetime - 1, k.lifetime - 2, rng.randrange(k.lifetime)}):
+                    for ax in (filled, b"\0" + rng.bytes_(L - 1)):
+                        msg = gen_msg(rng, "quick")
+                        aux_sign.append(Case(sign_line(H, k.blob(cnt), msg, "accept", ax), "sign/with-aux", {"key": k, "c": cnt, "msg": msg, "n": n}))
+    sign_cases = list(aux_sign)
     for k in keys:
         cs = boundary_counters(k.heights, rng, 2)
         if ctx.tier == "quick":
